@@ -1,4 +1,4 @@
-\* (thorough) oracle facet with 3 validators: pools 0,1,2,3,5, powers 0..2, all activity patterns, both proposers,
+\* (thorough) oracle facet with 3 validators: pools 0..4, powers 0..2, all activity patterns, every proposer,
 \* pct 0/50/100, tax 0, 1/2, 1; the allocator's outcome is enumerated blindly over 0..MaxAmt
 CONSTANTS
   Val = {"v1", "v2", "v3"}
@@ -6,7 +6,7 @@ CONSTANTS
   Denom = {"u"}
   MaxAmt = 8
   Kinds = {"OracleAlloc"}
-  Pools = {0, 1, 2, 3, 5}
+  Pools = {0, 1, 2, 3, 4}
   NBooks = 1
   Pows = {0, 1, 2}
   PwVecs <- AllPw
